@@ -9,7 +9,11 @@ if [ -n "$(git status --porcelain)" ]; then echo "/repo is dirty; commit or stas
 for id in $ids; do
   p="$base/$id/patch.diff"; [ -f "$p" ] || p="$base/$id/SEED/patch.diff"
   [ -f "$p" ] || continue
-  if ! git apply "$p" 2>/dev/null; then echo -e "$id\tAPPLY-FAILED"; continue; fi
+  # later fix commits moved the context of some older patches: fall back to a three-way apply
+  if ! git apply "$p" 2>/dev/null; then
+    if ! git apply --3way "$p" >/dev/null 2>&1; then git reset -q --hard HEAD; echo -e "$id\tAPPLY-FAILED"; continue; fi
+    if ! cargo build -q -p rarena-allocator --features memmap --offline 2>/dev/null; then git reset -q --hard HEAD; echo -e "$id\tAPPLY-FAILED (does not compile after 3-way apply)"; continue; fi
+  fi
   own=${id##*-}
   for prop in $own ${EXTRA:-}; do
     start=$(date +%s)
@@ -18,7 +22,7 @@ for id in $ids; do
     sig=$(echo "$out" | grep -m1 "sig=" | sed 's/^ *//' | cut -c1-200)
     echo -e "$id\tcheck=$prop\texit=$code\t$((end-start))s\t$sig"
   done
-  git checkout -- .
+  git reset -q --hard HEAD
   (cd /verif && git status --porcelain replays | grep '^??' | awk '{print $2}' | xargs -r rm -rf)
 done
 (cd /verif && git checkout -- evidence 2>/dev/null)
